@@ -8,7 +8,7 @@ from vlib.runner import Result
 ID = 'C17'
 RULE = ('All okta sequences over 0..8 up to length L (quick L=5, thorough L=7) are enumerated '
         'exhaustively (all distinct by construction) and longer ones (<=60) are drawn by Hypothesis; '
-        'oracle = independent 1-3-5 fold, len equality, and prefix-stability of the flags. A sequence '
+        'oracle = independent 1-3-5 fold, len equality, prefix-stability of the flags, and a history clause: the same list object is edited in place (append / item assignment / pop / slice assignment) between calls and must be judged by its current content. A sequence '
         'is non-trivial when some element meets its deciding threshold with equality-or-one-below '
         '(okta in {0,1,2,3,4,5} compared against the live threshold) or it holds >= 4 candidates '
         '(okta >= 1), i.e. the cap of three matters.')
@@ -64,6 +64,24 @@ def check(case):
             if list(icao.significant_cloud(list(oktas[:k]))) != list(full[:k]):
                 res.fail('prefix', 'prefix flags depend on layers above', f'{oktas} k={k}')
                 break
+    # history: the *same list object* is reused and edited in place between calls (a cache keyed on identity or
+    # holding a reference to its key would answer from the past)
+    if not res.failures:
+        from ampycloud import icao
+        work = list(oktas)
+        icao.significant_cloud(work)
+        for step, edit in enumerate(case.get('edits') or [['append', 8], ['set', 0, 0], ['pop']]):
+            if edit[0] == 'append':
+                work.append(edit[1])
+            elif edit[0] == 'set' and work:
+                work[edit[1] % len(work)] = edit[2]
+            elif edit[0] == 'pop' and work:
+                work.pop()
+            got = icao.significant_cloud(work)
+            if [bool(x) for x in got] != model(work):
+                res.fail('history', 'flags of a list edited in place between two calls differ from the rule',
+                         f'start={oktas} after edit #{step} {edit}: list={work} got={got} expected={model(work)}')
+                break
     res.nontrivial = nontrivial(oktas)
     res.sample = {'oktas': oktas}
     res.labels = [f'len{min(len(oktas) // 10 * 10, 60)}+']
@@ -71,7 +89,11 @@ def check(case):
 
 
 def strategy(tier):
-    return st.builds(lambda o: {'oktas': o}, st.lists(st.integers(0, 8), min_size=0, max_size=60))
+    edit = st.one_of(st.tuples(st.just('append'), st.integers(0, 8)),
+                     st.tuples(st.just('set'), st.integers(0, 59), st.integers(0, 8)),
+                     st.tuples(st.just('pop'))).map(list)
+    return st.builds(lambda o, e: {'oktas': o, 'edits': e}, st.lists(st.integers(0, 8), min_size=0, max_size=60),
+                     st.lists(edit, min_size=1, max_size=4))
 
 
 def jobs(tier, seed):
@@ -111,6 +133,20 @@ def run_job(job, ctx):
             n_nt += 1
             if len(st_.samples) < 1 and len(seq) == job['L']:
                 st_.samples.append({'oktas': seq, 'flags': [bool(x) for x in out]})
+    # the same enumeration once more through ONE list object edited in place (slice assignment) between calls
+    if job['prefix'] is not None and job['L'] >= 4:
+        work = []
+        for n in range(1, 3):
+            for rest in itertools.product(range(9), repeat=n):
+                work[:] = list(job['prefix']) + list(rest)
+                out = icao.significant_cloud(work)
+                st_.evaluations += 1
+                if [bool(x) for x in out] != model(work):
+                    res = Result()
+                    res.fail('history', 'flags of a list edited in place between two calls differ from the rule',
+                             f'list={list(work)} got={out} expected={model(work)}')
+                    ctx.record({'oktas': list(work)}, res)
+                    break
     st_.distinct_extra += n_nt
     st_.labels['enumerated'] += st_.cases
     if job['prefix'] == [8, 8]:
